@@ -16,6 +16,10 @@ def model(ctx, res):
     out2 = ctx.tlc("MC_Clock", "Clock_asfound_quick.cfg", timeout=3600, allow_violation=True)
     if "Invariant NoEarlyTimeout is violated" not in out2["raw"]:
         raise vlib.Broken("vacuity: the as-found makeDeadline no longer violates NoEarlyTimeout on the model")
+    # second vacuity guard: without the test that keeps clockEnd from moving backwards a live deadline can lose its clock
+    out5 = ctx.tlc("MC_Clock", "Clock_noguard_quick.cfg", timeout=3600, allow_violation=True)
+    if "Invariant LiveDeadlineHasClock is violated" not in out5["raw"]:
+        raise vlib.Broken("vacuity: extendClock without the monotonic test no longer violates LiveDeadlineHasClock on the model")
     # the model-level statement of the recorded finding: StopTimeoutClock during a live deadline leaves it without a clock
     out3 = ctx.tlc("MC_Clock", "Clock_stop_live_quick.cfg", timeout=3600, allow_violation=True)
     res.extra["model_stop_during_live_deadline_leaves_no_clock"] = "Invariant LiveDeadlineHasClock is violated" in out3["raw"]
@@ -65,7 +69,8 @@ def run(ctx, res):
                 "(one catastrophic), 2 timed matches each, timeouts 2 and 4 ticks: NoEarlyTimeout, AtMostOneClock, RunningIffClock, ClockNeverAhead, LiveDeadlineHasClock, "
                 "ClockStopsWhenDue; the as-found makeDeadline must violate NoEarlyTimeout (vacuity guard). F: histories derived from the model's behaviours are run in real "
                 "time with a 1 ms period: quick / catastrophic timed matches, idle gaps shorter and longer than timeout + slop, concurrent deadlines, clock exit and restart, "
-                "StopTimeoutClock between matches, and the two interleavings TLC produced as counter-examples of the unrepaired design, forced through gate hooks. "
+                "StopTimeoutClock between matches, the two interleavings TLC produced as counter-examples of the unrepaired design and the one of the variant whose clockEnd may move "
+                "backwards (H11: a shorter deadline extends the clock after a longer one), forced through gate hooks. "
                 "B: every clock event seen by the hook is validated against the model by Obs_Clock. evaluations = history checks + events; non-trivial = checks on timed catastrophic matches")
     model(ctx, res)
     viols, soft = [], []
